@@ -334,7 +334,14 @@ def mutate_first_string(doc):
             if o.get("k") in ("dict", "stream"):
                 return any(walk(p[1]) for p in o["v"])
         return False
+    def bookkeeping(o):
+        # cross-reference and object streams that lopdf keeps as objects are not part of the document the file
+        # defines (the judge does not compare them): a string of their dictionaries (ID in an XRef stream) is no control
+        if not (isinstance(o, dict) and o.get("k") == "stream"):
+            return False
+        return any(p[0] == [84, 121, 112, 101] and isinstance(p[1], dict) and p[1].get("k") == "name"
+                   and bytes(p[1]["v"]) in (b"XRef", b"ObjStm") for p in o["v"])
     for ob in doc["objects"]:
-        if walk(ob[2]):
+        if not bookkeeping(ob[2]) and walk(ob[2]):
             return True
     return False
